@@ -42,11 +42,11 @@ type Task struct {
 	Parent    int
 
 	state   taskState
-	site    string      // last scheduling point
+	site    string        // last scheduling point
 	wake    chan struct{} // capacity 1: the driver's release token
-	blocked interface{} // non-nil: parked but not enabled (waiting for lock/timer/socket/predicate)
-	pred    func() bool // optional: enabled only when pred() is true
-	inOp    bool        // released from Pre and not yet back at Post
+	blocked interface{}   // non-nil: parked but not enabled (waiting for lock/timer/socket/predicate)
+	pred    func() bool   // optional: enabled only when pred() is true
+	inOp    bool          // released from Pre and not yet back at Post
 	goid    int64
 	spins   int
 
@@ -93,11 +93,11 @@ type Sim struct {
 	seq   uint64
 	steps int
 
-	tasks   []*Task
-	current *Task
-	last    *Task
-	events  eventHeap
-	evseq   uint64
+	tasks    []*Task
+	current  *Task
+	last     *Task
+	events   eventHeap
+	evseq    uint64
 	timerSeq uint64
 
 	abort    chan struct{}
@@ -105,17 +105,17 @@ type Sim struct {
 	finished bool // root task returned
 	stopReq  bool
 
-	hash    uint64
+	hash      uint64
 	schedHash uint64
-	exits   int
-	states  map[uint64]struct{}
-	trace   []string
-	Panics  []Panic
-	Stats   Stats
-	Outcome string // "finished", "stalled", "step-budget"
+	exits     int
+	states    map[uint64]struct{}
+	trace     []string
+	Panics    []Panic
+	Stats     Stats
+	Outcome   string // "finished", "stalled", "step-budget"
 
-	lateTotal  time.Duration // sum of injected timer lateness
-	forcedJump time.Duration // sum of spin-guard clock jumps
+	lateTotal   time.Duration // sum of injected timer lateness
+	forcedJump  time.Duration // sum of spin-guard clock jumps
 	sameInstant int
 
 	onLock    func(LockEvent)
@@ -126,19 +126,19 @@ type Sim struct {
 
 // Stats are reach counters of one run.
 type Stats struct {
-	Steps          int
-	Decisions      int // decisions with at least two alternatives
-	MaxEnabled     int
-	MultiEnabled   int // steps at which at least two things were enabled
-	SelectMulti    int // selects that found >= 2 ready cases possible (polled with several ready)
-	TimerTies      int // steps at which >= 2 events were due at the same instant
-	TimerLate      int
-	Starved        int
-	ClockJumps     int
-	TasksSpawned   int
-	LibTasks       int
-	TimeAdvances   int
-	Probes         map[string]int
+	Steps        int
+	Decisions    int // decisions with at least two alternatives
+	MaxEnabled   int
+	MultiEnabled int // steps at which at least two things were enabled
+	SelectMulti  int // selects that found >= 2 ready cases possible (polled with several ready)
+	TimerTies    int // steps at which >= 2 events were due at the same instant
+	TimerLate    int
+	Starved      int
+	ClockJumps   int
+	TasksSpawned int
+	LibTasks     int
+	TimeAdvances int
+	Probes       map[string]int
 }
 
 var curSim atomic.Pointer[Sim]
@@ -241,10 +241,18 @@ func (s *Sim) logLocked(format string, args ...interface{}) {
 
 // SchedHash is the fingerprint of the schedule alone: the sequence of (task, site) releases and
 // event firings, without payloads.
-func (s *Sim) SchedHash() string { s.mu.Lock(); defer s.mu.Unlock(); return fmt.Sprintf("%016x", s.schedHash) }
+func (s *Sim) SchedHash() string {
+	s.mu.Lock()
+	defer s.mu.Unlock()
+	return fmt.Sprintf("%016x", s.schedHash)
+}
 
 // StateHash summarises the set of abstract states seen (see States).
-func (s *Sim) StateHash() string { s.mu.Lock(); defer s.mu.Unlock(); return fmt.Sprintf("%d", len(s.states)) }
+func (s *Sim) StateHash() string {
+	s.mu.Lock()
+	defer s.mu.Unlock()
+	return fmt.Sprintf("%d", len(s.states))
+}
 
 // States returns the distinct abstract states sampled at the quiescent points of this run. An
 // abstract state is the multiset of (spawn site, current scheduling site, waiting?) over all
@@ -299,7 +307,11 @@ func (s *Sim) sampleStateLocked() {
 func (s *Sim) Hash() string { s.mu.Lock(); defer s.mu.Unlock(); return fmt.Sprintf("%016x", s.hash) }
 
 // Trace returns the textual event log (only with Config.Trace).
-func (s *Sim) Trace() []string { s.mu.Lock(); defer s.mu.Unlock(); return append([]string(nil), s.trace...) }
+func (s *Sim) Trace() []string {
+	s.mu.Lock()
+	defer s.mu.Unlock()
+	return append([]string(nil), s.trace...)
+}
 
 // Tasks returns a snapshot of all tasks.
 func (s *Sim) Tasks() []TaskInfo {
@@ -621,7 +633,8 @@ func (s *Sim) blockOn(t *Task, what interface{}, site string) {
 
 // Block parks the calling task until Unblock(t) is called (by another task or an event).
 // It returns the task so that callers can register it before blocking: use
-//   t := s.Me(); register(t); s.Block(t, site)
+//
+//	t := s.Me(); register(t); s.Block(t, site)
 func (s *Sim) Block(t *Task, site string) { s.blockOn(t, "ext", site) }
 
 // ParentOf returns the id of the task that spawned task id (-1 for none).
